@@ -419,10 +419,31 @@ def m7_equivalence_predicate(ctx) -> None:
     f = m.node
     ctx.analysed(m)
     rets = [r for r in C.returns_of(f) if r.value is not None]
-    if len(rets) != 1:
-        raise AnalysisError("M7: Rule.is_equivalence no longer answers with one expression")
-    v = D.expanded(f, rets[0].value)
-    conj = [norm(x) for x in (v.values if isinstance(v, ast.BoolOp) and isinstance(v.op, ast.And) else [v])]
+    if not rets:
+        raise AnalysisError("M7: Rule.is_equivalence no longer answers")
+    # the conjunction may be written as a chain of early exits: `if not A: return <false>` ... `return Z` is `A and ... and Z`
+    rets = sorted(rets, key=lambda r_: r_.lineno)
+    final = rets[-1]
+    conj_nodes = []
+    for r in rets[:-1]:
+        gs = C.flatten_guards(C.guards(f, r))
+        rv = D.expanded(f, r.value)
+        falsy = (isinstance(rv, ast.Constant) and rv.value is False) or any((not p_) and norm(D.expanded(f, t)) == norm(rv) for t, p_ in gs) \
+            or any(p_ and isinstance(t, ast.UnaryOp) and isinstance(t.op, ast.Not) and norm(D.expanded(f, t.operand)) == norm(rv) for t, p_ in gs)
+        if not falsy or not gs:
+            raise AnalysisError("M7: Rule.is_equivalence has an exit the analysis does not read as a failed conjunct")
+        for t, p_ in gs:
+            t = D.expanded(f, t)
+            if p_ and isinstance(t, ast.UnaryOp) and isinstance(t.op, ast.Not):
+                conj_nodes.append(t.operand)
+            elif p_ and isinstance(t, ast.Compare) and len(t.ops) == 1 and isinstance(t.ops[0], ast.NotEq):
+                conj_nodes.append(ast.Compare(left=t.left, ops=[ast.Eq()], comparators=t.comparators))
+            else:
+                conj_nodes.append(t)        # a failed conjunct (negative) or one an earlier exit has already established (positive)
+    v = D.expanded(f, final.value)
+    conj_nodes += list(v.values) if isinstance(v, ast.BoolOp) and isinstance(v.op, ast.And) else [v]
+    conj = [norm(x) for x in conj_nodes]
+    rets = [final]
     need = {"self.strategy.can_be_equivalent()": "the strategy's own veto (a size-shifting one-child strategy is no equivalence)",
             "self.constructor.can_be_equivalent()": "the constructor's veto (two statistics poured into one)"}
     for t, why in need.items():
@@ -467,6 +488,9 @@ def m2b_reverse_rule_children(ctx) -> None:
         raise AnalysisError("M2: ReverseRule.__init__ no longer passes (strategy, class, children) to the base class")
     a1 = norm(D.expanded(f, sup[0].args[1]))
     a2 = norm(D.expanded(f, sup[0].args[2]))
+    # a slice of a tuple is a tuple: tuple(xs[a:b]) says no more than xs[a:b]
+    import re as _re
+    a2 = _re.sub(r"tuple\((" + _re.escape(r) + r"\.children\[[^\]]*\])\)", r"\1", a2)
     if a1 == f"{r}.children[{i}]":
         ctx.ok("M2", "the reverse rule is a rule for the child at position idx")
     else:
